@@ -5,10 +5,30 @@ HERE = os.path.dirname(os.path.dirname(os.path.abspath(__file__)))
 
 CLAIMED = {
     # id: (level, section, technique, level text, level note)
+    "C01": ("exploration", "4/C01",
+            "deterministic simulation: real server protocol stack on a fake kernel, scripted raw peers injecting segmentation, stalls, half-close, reset and slow reading; wire-grammar + expected-response oracle per connection history",
+            "Seeded search over request bytes x handler/middleware outcomes x peer faults x transport modes (plain, stdlib TLS, PyOpenSSL) x server assemblies (bare protocol, start_server with root or locations); every connection's received bytes are judged against the response grammar, the handler's own response and the exactly-once/close rules.",
+            "Trusts FakeSocket's TCP model (FIFO, lossless, FIN on close) and the scripted peer's TLS engine; self-inflicted truncation (peer reset / TLS peer sending after its request or half-closing) is three-valued."),
+    "C04": ("exploration", "4/C04",
+            "deterministic simulation: real MiddlewareChain with real and scripted components behind recorder wrappers, happens-before oracle over recorder/spy logs and directory snapshots",
+            "Seeded search over chain shapes, component outcomes (allow/deny/raise/slow), gemini and titan requests, peer addresses and client certificates, with the chain's completion interleaved against content arrival, the request timer and peer disconnects; plus start_server()'s own chain assembly on both TLS backends.",
+            "Recorder wrappers are harness code around each component; expected decisions for the start_server share come from deliberately simple configurations."),
+    "C06": ("exploration", "4/C06",
+            "deterministic simulation: backend differential (stdlib TLS vs PyOpenSSL) of the same body under seeded reader behaviour, socket buffer sizes and ciphertext cuts; byte-equality oracle",
+            "Seeded search over body sizes (dense at TLS-record and buffer boundaries, up to 1 MiB quick / 8 MiB thorough), contents, sources (scripted handler, StaticFileHandler, start_server) and readers (eager, slow, bursty) on both TLS backends; the decrypted stream must equal header+body and both backends must agree.",
+            "Readers needing more than 30 s hit asyncio's ssl_shutdown_timeout on the stdlib backend: recorded as an open known finding, explored as a separate rare population."),
+    "C07": ("exploration", "4/C07",
+            "deterministic simulation: differential of one-read baseline vs seeded segmentation (write pieces = TLS records, network cuts, delays) of identical client bytes; at-most-once invocation counter",
+            "Seeded search over request shapes and cut sets (random, 1-byte dribble, pinned to CR|LF, the size-th Titan byte, byte 1024) in plain, stdlib-TLS and PyOpenSSL mode with spy and real upload handlers; response bytes, handler arguments and upload directory must equal the unsegmented baseline and handlers run at most once per connection.",
+            "No deadline is crossed by the segmentation itself; close() with unread data is modelled as FIN."),
     "C10": ("exploration", "4/C10",
             "deterministic simulation: real RateLimiter + clean-up task under a virtual clock, seeded arrival histories, exact-rational token-bucket reference model checked step by step",
             "Seeded search over arrival histories (bursts, slow refills, idles spanning several clean-up periods, concurrent tasks, wire mode through the real protocol) with every decision compared against an exact token-bucket model without clean-up, plus the window bound over the recorded history. Evidence over the seeds explored, not a proof.",
             "Trusts the simulator's virtual clock (time.monotonic patched) and the reference model; float-vs-exact grey zone of 1e-9 around the threshold."),
+    "C15": ("fault_enumeration", "4/C15",
+            "deterministic simulation with fault enumeration: stall injected after every plaintext byte offset (4 request shapes x 3 transport modes) and every ciphertext byte offset of the handshake flights (2 TLS backends) under virtual time, plus seeded timer-vs-data races",
+            "Every stall point of the enumerated space is executed (18802 cases), then seeded runs race the request timer against late data at T-e/T/T+e, slow handlers and middleware up to 5xT, dribbling peers and disconnects; the close deadline, the single 40 response and the absence of a timeout after a complete request are checked.",
+            "T_handshake = 60 s demanded of both backends; virtual clock; e = 50 ms slack."),
 }
 
 NOT_APPLICABLE = {
